@@ -2,6 +2,18 @@
 //! exit 0 = body completed, 102 = assertion of the harness, 101 = panic inside the expansion, 3 = an
 //! assumption of the harness does not hold for these bytes, 4 = unknown harness.
 use @CRATE@::rt::nd;
+
+// Native counterpart of the Kani allocation stubs (C19): every allocation of the process bumps rt::ALLOCS, so a
+// counterexample of the allocation claim reproduces natively (rt::reset() zeroes the counter before each program).
+struct Counting;
+unsafe impl std::alloc::GlobalAlloc for Counting {
+    unsafe fn alloc(&self, l: std::alloc::Layout) -> *mut u8 { @CRATE@::rt::ALLOCS += 1; std::alloc::System.alloc(l) }
+    unsafe fn alloc_zeroed(&self, l: std::alloc::Layout) -> *mut u8 { @CRATE@::rt::ALLOCS += 1; std::alloc::System.alloc_zeroed(l) }
+    unsafe fn realloc(&self, p: *mut u8, l: std::alloc::Layout, n: usize) -> *mut u8 { @CRATE@::rt::ALLOCS += 1; std::alloc::System.realloc(p, l, n) }
+    unsafe fn dealloc(&self, p: *mut u8, l: std::alloc::Layout) { std::alloc::System.dealloc(p, l) }
+}
+#[global_allocator]
+static COUNTING: Counting = Counting;
 fn main() {
     let args: Vec<String> = std::env::args().collect();
     if args.len() < 2 { eprintln!("usage: replay <harness> [b0,b1,...]"); std::process::exit(4); }
